@@ -41,7 +41,8 @@ def _host_mws():
         """a host middleware whose repr() raises: the middleware section cannot be computed"""
         def __repr__(self):
             raise RuntimeError('no repr for you')
-    return {'simplectx-sections': lambda: SimpleContextProcessor('sections', 'general', 'title'),
+    return {'ctxproc-overwrite-host': lambda: ContextProcessor(defaults={'host': 'www.example.org', 'proc': 'web-1'}, overwrite=True),
+            'simplectx-sections': lambda: SimpleContextProcessor('sections', 'general', 'title'),
             # site-wide template data of the host, under names the meta page happens to use for its own working lists
             'ctxproc-sections': lambda: ContextProcessor(defaults={'sections': ('nav', 'footer'), 'general': None, 'app': None, 'host': 0}),
             'badrepr-mw': lambda: BadReprMiddleware(), 'simplectx': lambda: SimpleContextProcessor(), 'simplectx-named': lambda: SimpleContextProcessor('host_value'),
